@@ -7,6 +7,15 @@ from ..driver import ddmin_list
 
 CONFIG = {
     "level": "fault_enumeration",
+    "level_text": ("Crash-point enumeration inside seeded scenarios: the real create code runs as a forked process whose every "
+                   "durable effect (mkdir, creat, each raw write of the user-space buffer, close, replace) is numbered; the "
+                   "process is really killed (os._exit) before / in the middle of / after effect k, then the post-crash disk "
+                   "image is judged by independent readers and by running info, verify and create again. Thorough enumerates "
+                   "every effect x mode of each sampled scenario; scenarios themselves are sampled."),
+    "level_note": ("Process death (SIGKILL) is modelled, not power loss; kills between commands of one scenario are not "
+                   "combined; writes that bypass open()/os.* (e.g. os.write on a raw fd obtained elsewhere) would be atomic "
+                   "in the model. Known finding: the first-generation window (ascmhl folder exists, chain not yet)."),
+    "technique": "deterministic simulation: seeded crash-point injection (kill at numbered fs effects) + post-crash oracles",
     "quick": {"runs": 160, "budget_s": 60},
     "thorough": {"runs": 1600, "budget_s": 540},
     "rule": ("scenario = random world (tz, write-buffer size 1..65536, enumeration/read profile) + setup history of 0..3 "
@@ -45,6 +54,10 @@ def _file_class(rel):
         return "chain"
     if b.endswith(".mhl"):
         return "manifest"
+    if b.endswith(".mhl.tmp"):
+        return "manifest-tmp"
+    if b.startswith("ascmhl_chain.xml."):
+        return "chain-tmp"
     if b == "ascmhl":
         return "ascmhl-dir"
     return "other"
@@ -125,16 +138,16 @@ def execute(sc, ctx):
                           (base_info, full_info), (base_verify, full_verify), full.outcome)
         ctx.absorb_world(wk)
         # probes
-        if fclass == "manifest" and eff[1] == "write":
+        if fclass in ("manifest", "manifest-tmp") and eff[1] == "write":
             ctx.probe("kill_inside_manifest_write")
-        if fclass == "chain" and eff[1] in ("write", "creat", "close"):
+        if fclass in ("chain", "chain-tmp") and eff[1] in ("write", "creat", "close"):
             ctx.probe("kill_inside_chain_rewrite")
         if fclass == "ascmhl-dir" and kl["mode"] == "after":
             ctx.probe("kill_right_after_mkdir_ascmhl")
         if eff[1] == "replace":
             ctx.probe("kill_at_rename")
         later = [e for e in effects[kl["at"] + 1:]]
-        if fclass == "chain" and eff[1] == "close" and later:
+        if fclass in ("chain", "chain-tmp") and eff[1] in ("close", "replace") and later:
             ctx.probe("kill_between_child_commit_and_parent")
         core.shutil_rmtree(wk.sandbox)
     ctx.sample = {"setup": [o["argv"] if scen.is_cmd(o) else o for o in sc["ops"]][:6], "target": sc["target"]["argv"],
@@ -199,7 +212,7 @@ def _check_after_kill(sc, ctx, w, wk, kl, eff, pre_files, pre_hist, full_files, 
                                 f"chain of {hrel} lists {ent} which does not match the file on disk (kill {kl})")
                     return
     # 3. the next commands load the history normally
-    empty_asc = _has_empty_ascmhl(wk.root)
+    empty_asc = _new_folder_without_chain(wk, pre_hist)
     for name, allowed in (("info", infos), ("verify", verifies)):
         r = wk.run_cmd([name, wk.root])
         if r.outcome not in allowed:
@@ -229,16 +242,18 @@ def _check_after_kill(sc, ctx, w, wk, kl, eff, pre_files, pre_hist, full_files, 
             return
 
 
-def _has_empty_ascmhl(root):
-    for d, subs, files in os.walk(root):
-        if os.path.basename(d) == "ascmhl" and not files and not subs:
-            return True
+def _new_folder_without_chain(wk, pre_hist):
+    """an ascmhl folder that did not exist before the interrupted run and has no chain file yet"""
+    for d, subs, files in os.walk(wk.root):
+        if os.path.basename(d) == "ascmhl" and "ascmhl_chain.xml" not in files:
+            if os.path.relpath(os.path.dirname(d), wk.base) not in pre_hist:
+                return True
     return False
 
 
 def _fail_cause(r, empty_asc):
     if r.outcome[0] == "exit" and r.outcome[1] == 32 and empty_asc:
-        return "empty-ascmhl-folder"
+        return "first-generation-folder-without-chain"
     if r.outcome[0] == "abort":
         return "abort:" + r.extra.get("abort_type", "?")
     return r.brief()
